@@ -105,6 +105,16 @@ PROPS = {
             "hand model Model/Codecs.lean (bit-string formatting/indexing as bit arithmetic, enum id map with later-wins, AI tag packing, hit-point fraction), tied by exhaustive correspondence runs",
         ],
     },
+    "C18": {
+        "targets": ["RichchkModel.Props.C18"],
+        "harness": "imports_h",
+        "theorems_file": "RichchkModel/Props/C18.lean",
+        "namespace": "Richchk.Props.C18",
+        "trusted": [
+            "hand model Model/Imports.lean of CPython's import execution (sys.modules entry before the body runs, depth first, from-import of an undefined name from a partially initialised module raises); pkgutil.iter_modules order = sorted file names",
+            "the translator's reading of top-level imports, class-definition registrations and import_all_modules_in_subpackage calls (function-level and TYPE_CHECKING imports are not executed at import time)",
+        ],
+    },
     "C19": {
         "targets": ["RichchkModel.Props.C19"],
         "harness": "bytelayer",
@@ -173,7 +183,7 @@ def regenerate():
     return gaps, summary
 
 
-EXTRA_TRANSLATORS = ["tr_codecs", "tr_trig", "tr_consts"]  # each module exposes generate(gen_dir, build_dir, write_if_changed)
+EXTRA_TRANSLATORS = ["tr_codecs", "tr_trig", "tr_consts", "tr_imports"]  # each module exposes generate(gen_dir, build_dir, write_if_changed)
 
 
 def lake_build(targets, timeout=3000):
